@@ -12,14 +12,21 @@ def _setup(vc, clsname, scale_name):
     F = vc.vector("F", n, sample=lambda r: r.uniform(-5, 5) * 10 ** r.choice([0, 0, 1, 3]))   # model prediction at theta (arbitrary)
     J = vc.matrix("J", n, m)           # its Jacobian at theta (arbitrary)
     theta = vc.vector("theta", m)
-    model = vc.ghost("forward_model", lambda th: F)
-    jac = vc.ghost("forward_model_jacobian", lambda th: J)
+    # the forward model is an arbitrary function of theta: `cur` holds its value / Jacobian at the point being evaluated
+    cur = {"F": F, "J": J}
+    model = vc.ghost("forward_model", lambda th: cur["F"])
+    jac = vc.ghost("forward_model_jacobian", lambda th: cur["J"])
     L = vc.new(LIK, clsname, y, sc, model, forward_model_jacobian=jac)
+    _CUR[id(vc)] = cur
     return n, m, y, sc, F, J, theta, L
 
 
-def _common(vc, L, theta, n, m, J, logf, dlogf_dF, F):
+_CUR = {}
+
+
+def _common(vc, L, theta, n, m, J, mk, F):
     vc.tol(rtol=1e-9, atol=1e-9)
+    logf, dlogf_dF = mk(F)
     val = vc.call(L, "__call__", theta)
     spec = vc.sum(n, logf)
     vc.ensures("value", vc.eq(val, spec))
@@ -43,6 +50,21 @@ def _common(vc, L, theta, n, m, J, logf, dlogf_dF, F):
     vc.ensures("cost_neg", vc.eq(cost, -val))
     cg = vc.call(L, "cost_gradient", theta)
     vc.ensures_forall("cost_gradient_neg", m, lambda j: vc.eq(cg[j], -grad[j]))
+    # the results are functions of the VALUES passed only: the caller now changes the same parameter array in place (what an
+    # optimiser or sampler working on a state buffer does); the model takes new, arbitrary values F2 / J2 at the new point
+    F2 = vc.vector("F2", n, sample=lambda r: r.uniform(-5, 5) * 10 ** r.choice([0, 0, 1, 3]))
+    J2 = vc.matrix("J2", n, m)
+    step = vc.real("step", pos=True)
+    cur = _CUR.pop(id(vc))
+    cur["F"], cur["J"] = F2, J2
+    vc.setitem(theta, 0, theta[0] + step)
+    logf2, dlogf2 = mk(F2)
+    val2 = vc.call(L, "__call__", theta)
+    vc.ensures("value_after_in_place_update_of_theta", vc.eq(val2, vc.sum(n, logf2)))
+    grad2 = vc.call(L, "gradient", theta)
+    vc.ensures_forall("gradient_after_in_place_update_of_theta", m, lambda j: vc.eq(
+        grad2[j], vc.sum(n, lambda i: dlogf2(i) * J2[i, j]), scale=_gs(vc, n, dlogf2, J2, j)))
+    vc.ensures("cost_after_in_place_update_of_theta", vc.eq(vc.call(L, "cost", theta), -val2))
 
 
 def _gs(vc, n, d, J, j):
@@ -54,18 +76,22 @@ def _gs(vc, n, d, J, j):
 @contract("C05", "gaussian")
 def gaussian(vc):
     n, m, y, s, F, J, theta, L = _setup(vc, "GaussianLikelihood", "sigma")
-    logf = lambda i: -0.5 * ((y[i] - F[i]) / s[i]) ** 2 - vc.log(s[i]) - 0.5 * vc.log(2 * vc.pi)
-    dlogf = lambda i: (y[i] - F[i]) / (s[i] * s[i])
-    _common(vc, L, theta, n, m, J, logf, dlogf, F)
+    def mk(F):
+        logf = lambda i: -0.5 * ((y[i] - F[i]) / s[i]) ** 2 - vc.log(s[i]) - 0.5 * vc.log(2 * vc.pi)
+        dlogf = lambda i: (y[i] - F[i]) / (s[i] * s[i])
+        return logf, dlogf
+    _common(vc, L, theta, n, m, J, mk, F)
 
 
 @contract("C05", "cauchy")
 def cauchy(vc):
     n, m, y, g, F, J, theta, L = _setup(vc, "CauchyLikelihood", "gamma")
-    z = lambda i: (y[i] - F[i]) / g[i]
-    logf = lambda i: -vc.log(1 + z(i) ** 2) - vc.log(vc.pi * g[i])
-    dlogf = lambda i: 2 * z(i) / (g[i] * (1 + z(i) ** 2))
-    _common(vc, L, theta, n, m, J, logf, dlogf, F)
+    def mk(F):
+        z = lambda i: (y[i] - F[i]) / g[i]
+        logf = lambda i: -vc.log(1 + z(i) ** 2) - vc.log(vc.pi * g[i])
+        dlogf = lambda i: 2 * z(i) / (g[i] * (1 + z(i) ** 2))
+        return logf, dlogf
+    _common(vc, L, theta, n, m, J, mk, F)
 
 
 @contract("C05", "logistic")
@@ -73,11 +99,14 @@ def logistic(vc):
     n, m, y, s, F, J, theta, L = _setup(vc, "LogisticLikelihood", "sigma")
     # logistic scale with standard deviation sigma: sd = scale*pi/sqrt(3)
     sc = lambda i: s[i] * vc.sqrt(3) / vc.pi
-    z = lambda i: (y[i] - F[i]) / sc(i)
-    # log f = -z - 2 log(1 + exp(-z)) - log(scale)   (= z - 2 log(1+exp(z)) - log(scale))
-    logf = lambda i: z(i) - 2 * vc.log1pexp(z(i)) - vc.log(sc(i))
-    dlogf = lambda i: (2 / (1 + vc.exp(-z(i))) - 1) / sc(i)
-    _common(vc, L, theta, n, m, J, logf, dlogf, F)
+
+    def mk(F):
+        z = lambda i: (y[i] - F[i]) / sc(i)
+        # log f = -z - 2 log(1 + exp(-z)) - log(scale)   (= z - 2 log(1+exp(z)) - log(scale))
+        logf = lambda i: z(i) - 2 * vc.log1pexp(z(i)) - vc.log(sc(i))
+        dlogf = lambda i: (2 / (1 + vc.exp(-z(i))) - 1) / sc(i)
+        return logf, dlogf
+    _common(vc, L, theta, n, m, J, mk, F)
 
 
 # ---- bounded layer: many data points, small / large uncertainties (products and sums that leave double range) ----------
@@ -87,7 +116,7 @@ from pyvc.vc import bounded
 @bounded("C05", "large_data_native", native_runs=18)
 def large_data_native(vc):
     """value / cost / gradient against the per-point sum of the named log-densities (math.fsum) for data sets of up to
-    several thousand points with uncertainties from 1e-3 to 1e3: every quantity must stay finite and exact"""
+    several thousand points with uncertainties from 1e-3 to 1e3 (and 1e-100, 1e100: any scale whose square is a double): every quantity must stay finite and exact"""
     import math
     import numpy as np
     from inference.likelihoods import GaussianLikelihood, CauchyLikelihood, LogisticLikelihood
@@ -95,7 +124,7 @@ def large_data_native(vc):
     rng = np.random.default_rng(seed)
     which = vc.choice("likelihood", ["gaussian", "cauchy", "logistic"])
     n = vc.choice("n", [1, 40, 800, 4000])
-    log_scale = vc.choice("log10_uncertainty", [-3, -1.3, 0, 1.3, 3])
+    log_scale = vc.choice("log10_uncertainty", [-3, -1.3, 0, 1.3, 3, -100, 100])
     s = 10.0 ** (log_scale + rng.uniform(-0.2, 0.2, size=n))
     x = np.linspace(0, 1, n) if n > 1 else np.array([0.5])
     theta = rng.normal(size=2)
@@ -123,4 +152,4 @@ def large_data_native(vc):
     vc.ensures("value_is_finite_sum_of_named_log_densities", math.isfinite(float(val)) and abs(float(val) - want) <= 1e-9 * max(1.0, abs(want)))
     vc.ensures("cost_is_exact_negative", float(cost) == -float(val))
     vc.ensures("gradient_is_sum_of_per_point_terms", bool(np.all(np.isfinite(grad)))
-               and bool(np.allclose(grad, gwant, rtol=1e-8, atol=1e-8 * max(1.0, float(np.abs(dl).sum())))))
+               and bool(np.allclose(grad, gwant, rtol=1e-8, atol=1e-8 * float(np.abs(dl).sum()) + 1e-300)))
